@@ -355,13 +355,17 @@ fn execute_convert(
     println!();
 
     if changes.is_empty() || (changes.len() == 1 && changes[0].contains("No conversion needed")) {
-        println!("{} No conversion needed", style("ℹ").blue());
-        return Ok(());
-    }
-
-    println!("{}", style("Changes to be made:").bold());
-    for change in &changes {
-        println!("  {} {}", style("•").cyan(), change);
+        // The two versions share one layout: the output is still written, otherwise the
+        // command would report success without having produced the file it was asked for
+        println!(
+            "{} No format changes between these versions",
+            style("ℹ").blue()
+        );
+    } else {
+        println!("{}", style("Changes to be made:").bold());
+        for change in &changes {
+            println!("  {} {}", style("•").cyan(), change);
+        }
     }
 
     if preview {
